@@ -14,6 +14,7 @@ import (
 	"fmt"
 	"io"
 	"net"
+	"net/http"
 	"net/url"
 	"os"
 	"regexp"
@@ -35,9 +36,11 @@ import (
 	"github.com/bluenviron/mediamtx/internal/conf"
 	"github.com/bluenviron/mediamtx/internal/defs"
 	"github.com/bluenviron/mediamtx/internal/externalcmd"
+	"github.com/bluenviron/mediamtx/internal/servers/hls"
 	"github.com/bluenviron/mediamtx/internal/servers/rtmp"
 	"github.com/bluenviron/mediamtx/internal/servers/rtsp"
 	srtserver "github.com/bluenviron/mediamtx/internal/servers/srt"
+	"github.com/bluenviron/mediamtx/internal/servers/webrtc"
 	"github.com/bluenviron/mediamtx/internal/stream"
 	"github.com/bluenviron/mediamtx/internal/test"
 	"github.com/bluenviron/mediamtx/internal/verifutil"
@@ -159,17 +162,36 @@ type verifC03PWorld struct {
 	rtspAddr string
 	rtmpAddr string
 	srtAddr  string
+
+	// HTTP front ends, index 0: no trusted proxy configured, index 1: 127.0.0.1 is a trusted proxy
+	hlsS     [2]*hls.Server
+	hlsAddr  [2]string
+	wrtcS    [2]*webrtc.Server
+	wrtcAddr [2]string
+	hc       *http.Client
 }
+
+// SetHLSServer implements the HLS server's path manager interface.
+func (w *verifC03PWorld) SetHLSServer(*hls.Server) []defs.Path { return nil }
 
 var (
 	verifC03PUsers    []verifC03PUser // permission table of the last `reset` op
 	verifC03PW        *verifC03PWorld
 	verifC03PRealRand io.Reader // set by verifC03Init before it installs the zero reader
+	// the address the current connection REALLY comes from, as the property means it: the peer address, or the
+	// forwarded address when (and only when) the peer is a configured trusted proxy
+	verifC03PClientIP = net.ParseIP("127.0.0.1")
 )
 
 func (w *verifC03PWorld) rec(author any, kind string, a *defs.PathAccessRequest, honourSkip bool, conf int) (admitted, granted bool) {
-	admitted = verifC03PAdmit(verifC03PUsers, a)
-	granted = admitted || (honourSkip && a.SkipAuth)
+	// granted: what a path manager does with the request AS THE SERVER PASSED IT (incl. the IP it claims);
+	// admitted: the table's verdict for the client's real address
+	granted = verifC03PAdmit(verifC03PUsers, a) || (honourSkip && a.SkipAuth)
+	real := *a
+	if real.IP != nil {
+		real.IP = verifC03PClientIP
+	}
+	admitted = verifC03PAdmit(verifC03PUsers, &real)
 	w.mu.Lock()
 	id, ok := w.authors[author]
 	if !ok {
@@ -297,6 +319,27 @@ func verifC03PStart() *verifC03PWorld {
 	if err := w.srtS.Initialize(); err != nil {
 		panic(err)
 	}
+	_, lo, _ := net.ParseCIDR("127.0.0.1/32")
+	for i := 0; i < 2; i++ {
+		var tp conf.IPNetworks
+		if i == 1 {
+			tp = conf.IPNetworks{conf.IPNetwork(*lo)}
+		}
+		w.hlsAddr[i] = verifC03PFreeTCP()
+		w.hlsS[i] = &hls.Server{Address: w.hlsAddr[i], TrustedProxies: tp, ReadTimeout: to, WriteTimeout: to,
+			MuxerCloseAfter: conf.Duration(time.Second), PathManager: w, Parent: test.NilLogger}
+		if err := w.hlsS[i].Initialize(); err != nil {
+			panic(err)
+		}
+		w.wrtcAddr[i] = verifC03PFreeTCP()
+		w.wrtcS[i] = &webrtc.Server{Address: w.wrtcAddr[i], TrustedProxies: tp, ReadTimeout: to, WriteTimeout: to,
+			HandshakeTimeout: to, TrackGatherTimeout: conf.Duration(time.Second), STUNGatherTimeout: conf.Duration(time.Second),
+			PathManager: w, Parent: test.NilLogger}
+		if err := w.wrtcS[i].Initialize(); err != nil {
+			panic(err)
+		}
+	}
+	w.hc = &http.Client{Timeout: 2 * time.Second, CheckRedirect: func(*http.Request, []*http.Request) error { return http.ErrUseLastResponse }}
 	return w
 }
 
@@ -304,6 +347,57 @@ func (w *verifC03PWorld) close() {
 	w.rtspS.Close()
 	w.rtmpS.Close()
 	w.srtS.Close()
+	for i := 0; i < 2; i++ {
+		w.hlsS[i].Close()
+		w.wrtcS[i].Close()
+	}
+}
+
+// httpOp: one request to an HLS / WebRTC front end.  variant: hls page; webrtc page | options | post.
+func (w *verifC03PWorld) httpOp(proto, mode, variant string, tp int, name, user, pass, xff string) error {
+	var method, u string
+	var body io.Reader
+	switch {
+	case proto == "hls":
+		method, u = http.MethodGet, "http://"+w.hlsAddr[tp]+"/"+name+"/"
+	case variant == "page" && mode == "pub":
+		method, u = http.MethodGet, "http://"+w.wrtcAddr[tp]+"/"+name+"/publish"
+	case variant == "page":
+		method, u = http.MethodGet, "http://"+w.wrtcAddr[tp]+"/"+name+"/"
+	default:
+		ep := "/whep"
+		if mode == "pub" {
+			ep = "/whip"
+		}
+		method, u = http.MethodOptions, "http://"+w.wrtcAddr[tp]+"/"+name+ep
+		if variant == "post" {
+			method, body = http.MethodPost, strings.NewReader("v=0\r\n")
+		}
+	}
+	req, err := http.NewRequest(method, u, body)
+	if err != nil {
+		return err
+	}
+	if user != "" || pass != "" {
+		req.SetBasicAuth(user, pass)
+	}
+	if body != nil {
+		req.Header.Set("Content-Type", "application/sdp")
+	}
+	if xff != "-" {
+		req.Header.Set("X-Forwarded-For", xff)
+		req.Header.Set("X-Real-Ip", xff)
+	}
+	res, err := w.hc.Do(req)
+	if err != nil {
+		return err
+	}
+	io.Copy(io.Discard, res.Body) //nolint:errcheck
+	res.Body.Close()
+	if res.StatusCode >= 400 {
+		return fmt.Errorf("status %d", res.StatusCode)
+	}
+	return nil
 }
 
 func (w *verifC03PWorld) hasAttach() bool {
@@ -442,6 +536,14 @@ func verifC03PExec(f []string) string {
 			}
 			c.Close()
 		}
+	case "hls", "webrtc":
+		// proto <hls|webrtc> <mode> 0 <name> <user> <pass> <expect> <variant> <trusted 0|1> <xff|->
+		tp, xff := verifutil.Atoi(f[9]), f[10]
+		if tp == 1 && xff != "-" {
+			verifC03PClientIP = net.ParseIP(xff)
+		}
+		fail(w.httpOp(proto, mode, f[8], tp, name, user, pass, xff))
+		verifC03PClientIP = net.ParseIP("127.0.0.1")
 	default:
 		return "bad-proto -"
 	}
@@ -480,16 +582,37 @@ func verifC03PGen(r *verifutil.Rand, us []string, n int) []string {
 	names := []string{"cam", "cam", "dyn/x", "cam2", "Cam", "live/a", "dyn/y", "c"}
 	var ops []string
 	for k := 0; k < n; k++ {
-		proto := r.Pick("rtsp", "rtmp", "srt")
+		proto := r.Pick("rtsp", "rtmp", "srt", "hls", "webrtc", "webrtc")
 		mode := r.Pick("pub", "pub", "read")
+		if proto == "hls" {
+			mode = "read"
+		}
 		id := ids[r.Intn(len(ids))]
 		if r.Chance(1, 2) && len(ids) > 2 {
 			id = ids[2+r.Intn(len(ids)-2)] // a configured user, right or wrong password
 		}
 		name := names[r.Intn(len(names))]
 		a := &defs.PathAccessRequest{Name: name, Publish: mode == "pub", Credentials: &auth.Credentials{User: id.u, Pass: id.p}, IP: net.ParseIP("127.0.0.1")}
+		extra := ""
+		if proto == "hls" || proto == "webrtc" {
+			// HTTP front ends: a forwarded-for header naming an address the table may favour, against the
+			// instance without trusted proxies (header must be ignored) and the one that trusts 127.0.0.1
+			variant := "page"
+			if proto == "webrtc" {
+				variant = r.Pick("page", "options", "post")
+			}
+			tp, xff := r.Intn(2), r.Pick("-", "10.1.2.3", "10.1.2.3", "192.168.9.9")
+			if tp == 1 && xff != "-" {
+				a.IP = net.ParseIP(xff)
+			}
+			extra = fmt.Sprintf(" %s %d %s", variant, tp, xff)
+			if strings.Contains(name, "/") {
+				name = "cam" // keep URL routing simple for the pages
+				a.Name = name
+			}
+		}
 		expect := verifC03PAdmit(users, a)
-		ops = append(ops, fmt.Sprintf("proto %s %s 0 %s %s %s %s", proto, mode, verifutil.HexS(name), verifutil.HexS(id.u), verifutil.HexS(id.p), verifC03B(expect)))
+		ops = append(ops, fmt.Sprintf("proto %s %s 0 %s %s %s %s%s", proto, mode, verifutil.HexS(name), verifutil.HexS(id.u), verifutil.HexS(id.p), verifC03B(expect), extra))
 	}
 	return ops
 }
